@@ -61,6 +61,8 @@ def parse_file(path):
         lines = fh.read().splitlines()
     for i, line in enumerate(lines):
         s = line.strip()
+        if s.startswith("//@@"):
+            continue  # derive-time directive (vlib/derive.py extract_directives)
         if s.startswith("//@"):
             body = s[3:].strip()
             toks = shlex.split(body)
